@@ -75,6 +75,19 @@ type SLetDecl struct {
 	Old  bool
 }
 
+// ScanDecl: a syntactic obligation. The set of functions of /repo in which a
+// given kind of instruction occurs must be contained in (<=) or equal to (==)
+// the listed set.
+type ScanDecl struct {
+	Labels []string
+	Kind   string // stores, calls-of-type, calls, builtin, allocs, methods
+	Target string
+	Op     string // "<=" or "=="
+	Expect []string
+	Src    string
+	Where  string
+}
+
 type specFuncDecl struct {
 	Name   string
 	Params []SVarDecl
@@ -104,6 +117,7 @@ type SpecFile struct {
 	Lemmas    []*Clause
 	LocSets   map[string][]string
 	TypeInvs  []*TypeInv
+	Scans     []*ScanDecl
 	Ghosts    []string // "Struct.field sort"
 	GhostVars []string // "$name sort"
 }
@@ -112,7 +126,7 @@ var headerRe = regexp.MustCompile(`^func\s*(\(([^)]*)\))?\s*([A-Za-z0-9_./$:\[\]
 
 var clauseKw = map[string]bool{"requires": true, "ensures": true, "modifies": true, "allocates": true, "maypanic": true,
 	"trusted": true, "onpanic": true, "loop": true, "site": true, "let": true, "oldlet": true, "noinline": true}
-var topKw = map[string]bool{"opaque": true, "typeinv": true, "locset": true, "func": true, "pure": true, "ufunc": true, "axiom": true, "lemma": true, "ghost": true, "package": true}
+var topKw = map[string]bool{"opaque": true, "typeinv": true, "locset": true, "func": true, "pure": true, "ufunc": true, "axiom": true, "lemma": true, "ghost": true, "package": true, "scan": true}
 
 // readSpecLines collects the //@ lines of a file, joining continuation lines.
 func readSpecLines(path string) (pkg string, lines []string, where []string, err error) {
@@ -283,6 +297,29 @@ func parseSpecFile(path string) (*SpecFile, error) {
 			} else {
 				sf.Lemmas = append(sf.Lemmas, cl)
 			}
+			cur = nil
+		case "scan":
+			// scan[labels] kind target <=|== fn, fn, ...
+			labels, r := parseLabels(rest)
+			op := "<="
+			j := strings.Index(r, "<=")
+			if k := strings.Index(r, "=="); k >= 0 && (j < 0 || k < j) {
+				op, j = "==", k
+			}
+			if j < 0 {
+				return nil, fail("scan: expected 'kind target <= f, g' or '== f, g'")
+			}
+			head := strings.Fields(r[:j])
+			if len(head) != 2 {
+				return nil, fail("scan: expected kind and target before %s", op)
+			}
+			sd := &ScanDecl{Labels: labels, Kind: head[0], Target: head[1], Op: op, Src: r, Where: w}
+			for _, f := range strings.Split(r[j+2:], ",") {
+				if f = strings.TrimSpace(f); f != "" && f != "none" {
+					sd.Expect = append(sd.Expect, f)
+				}
+			}
+			sf.Scans = append(sf.Scans, sd)
 			cur = nil
 		case "ghost":
 			// ghost field Struct.name sort   |   ghost var $name sort
